@@ -207,6 +207,34 @@ def gen_cases(tier, seed):
             kw['error'] = rng.choice(['L', 'M', 'Q', 'H'])
         cases.append(common.mk(parts, tag='multi', **kw))
     cases += common.big_int_cases(rng, tier)
+    # several non-mergeable segments that fit M4 but not version 1 (M4 has shorter mode and count indicators: per segment it
+    # is cheaper than version 1 by more than the capacity differs) - the order M1 < ... < M4 < 1 is not an order of capacity
+    for lv in ('L', 'M', 'Q'):
+        found = 0
+        for k_ in range(3, 10):
+            for trial in range(400):
+                parts = []
+                last = None
+                for _ in range(k_):
+                    m_ = rng.choice([x for x in ('numeric', 'alphanumeric', 'byte') if x != last])
+                    last = m_
+                    parts.append(gen.content_for_bits(m_, rng.choice([1, 1, 2, 3, 4])))
+                try:
+                    segs = oracle.segmentations(oracle.spec_parts(parts, None, None), False)
+                except Exception:  # noqa: BLE001
+                    continue
+                b4 = [oracle.bits_of('M4', c) for c in segs]
+                b1 = [oracle.bits_of(1, c) for c in segs]
+                if any(b is None for b in b4 + b1):
+                    continue
+                if max(b4) <= oracle.capacity('M4', lv) and min(b1) > oracle.capacity(1, lv):
+                    found += 1
+                    cases.append(common.mk(parts, tag='fits-m4-not-v1', b=['M4', lv, 'segments', 'fits-m4-not-v1'], error=lv, boost_error=False))
+                    cases.append(common.mk(parts, tag='fits-m4-not-v1', b=['M4', lv, 'segments', 'fits-m4-not-v1'], error=lv))
+                    if found >= 6:
+                        break
+            if found >= 6:
+                break
     # eci=True with every spelling class of the encoding name at the capacity of a version: the 12 header bits are counted
     # exactly when they are written (judged here by the version that is chosen / refused)
     cases += common.eci_boundary_cases(rng, tier, versions=[1, 2, 9, 10] if tier == 'quick' else None)
